@@ -27,6 +27,9 @@ func init() {
 }
 */
 
+// maxSnappyExpansion bounds decodedLen/len(compressed) for any valid snappy block
+const maxSnappyExpansion = 22
+
 type snappyBuf struct {
 	buf []byte
 }
@@ -83,6 +86,11 @@ func (se snappyEncoding) Unmarshal(buf []byte, msg drpc.Message) (err error) {
 	decodedLen, err := snappy.DecodedLen(buf)
 	if err != nil {
 		return
+	}
+	// a snappy stream expands at most 64/3 times (a 3-byte copy element yields up to 64 bytes):
+	// do not allocate for a length header the input cannot possibly fill
+	if decodedLen > maxSnappyExpansion*len(buf) {
+		return snappy.ErrCorrupt
 	}
 
 	var unmarshalBuf *snappyBuf
